@@ -176,6 +176,50 @@ def run_job(job, rec):
             lam = np.linalg.eigvalsh(0.5 * (gc[k] + gc[k].T))
             rec.check(lam.min() >= -ctol * d, "gradient-covariance-not-psd", lambda: f"gradient covariance eigenvalue {lam.min():.3e}", rec.context)
 
+    # ------------------------------------------------ kernels other than the plain squared-exponential: a derivative prediction is either refused
+    #                                                  (NotImplementedError: documented as not available) or it is the derivative of the prediction
+    for c in range(job.get("n_composite", 6)):
+        d = int(rng.choice([1, 2]))
+        n = int(rng.choice([5, 8, 13]))
+        x = G.random_points(rng, n, d)
+        y_scale = 10.0 ** rng.uniform(-1, 1)
+        span = np.where(np.ptp(x, axis=0) > 0, np.ptp(x, axis=0), 1.0)
+        y = y_scale * (np.sin(3 * (x - x.mean(0)) @ (rng.normal(size=d) / span)) + 0.2 * rng.normal(size=n))
+        cspec = [("SUM", [("SE",), ("WN",)]), ("SUM", [("SE",), ("SE",)]), ("SUM", [("SE",), ("RQ",)]), ("SUM", [("WN",), ("SE",)]), ("RQ",),
+                 ("SUM", [("SE",), ("SE",), ("WN",)])][(c + job["j"]) % 6]
+        tc = G.random_theta(cspec, rng, x, y_scale)
+        tm = G.random_mean_theta("Constant", rng, x, y_scale)
+        cctx = {"other_kernel": G.describe(cspec), "n": n, "d": d}
+        rec.context = cctx
+        Kc = R.data_cov(cspec, x, tc) + np.eye(n) * (0.05 * y_scale) ** 2
+        if np.linalg.cond(Kc) > 1e8:
+            continue
+        gp = guarded(GpRegressor, x, y, y_err=np.full(n, 0.05 * y_scale), hyperpars=np.concatenate([tm, tc]), kernel=G.build_repo_kernel(cspec))
+        if isinstance(gp, Raised):
+            rec.violation("raised", f"GpRegressor construction raised {gp!r}", cctx)
+            continue
+        L_ = np.exp(tc[1:1 + d]) if cspec[0] != "SUM" or cspec[1][0][0] == "SE" else span * 0.3
+        qk = x[rng.integers(n)] + rng.normal(size=d) * span * 0.1
+        og, os_ = guarded(gp.gradient, qk), guarded(gp.spatial_derivatives, qk)
+        rec.count("other_kernels:cases")
+        if any(isinstance(v, Raised) and isinstance(v.exc, NotImplementedError) for v in (og, os_)):
+            rec.count("other_kernels:derivatives_refused")
+            continue
+        if isinstance(og, Raised) or isinstance(os_, Raised):
+            rec.violation("raised", f"{G.describe(cspec)}: gradient / spatial_derivatives raised {og!r} / {os_!r}", cctx)
+            continue
+        rec.count("other_kernels:derivatives_answered")
+        dmu, st1 = num_grad_stable(lambda t: float(gp(t)[0][0]), qk, 1e-3 * span)
+        dv, st2 = num_grad_stable(lambda t: float(gp(t)[1][0]) ** 2, qk, 1e-3 * span)
+        if st1:
+            for nm_, got_ in (("gradient()", np.ravel(np.asarray(og[0], float))), ("spatial_derivatives()", np.ravel(np.asarray(os_[0], float)))):
+                rec.check(got_.shape == (d,) and bool(np.all(np.abs(got_ - np.asarray(dmu)) <= 1e-5 * max(np.abs(dmu).max(), 1e-300) + 2 * dmu.spread)), "gradient-mean",
+                          lambda: f"{G.describe(cspec)}: {nm_} mean {got_} != numerical derivative of the predictive mean {np.asarray(dmu)}", cctx)
+        if st2:
+            gv = np.ravel(np.asarray(os_[1], float))
+            rec.check(gv.shape == (d,) and bool(np.all(np.abs(gv - np.asarray(dv)) <= 1e-5 * max(np.abs(dv).max(), 1e-300) + 2 * dv.spread)), "spatial-derivative-variance",
+                      lambda: f"{G.describe(cspec)}: variance gradient {gv} != numerical derivative of the predictive variance {np.asarray(dv)}", cctx)
+
     rec.count("post:gradient", a_g.calls)
     rec.count("post:spatial_derivatives", a_s.calls)
     a_g.detach()
